@@ -96,6 +96,19 @@ def variables(check, key):
     cls = proj.cls(MODELS[key]["cls"])
     reg = proj.instance_registry(cls, "_vardict")
     n = 0
+    # every variable the statement names for this model is registered under that name
+    try:
+        _ctx0 = Ctx(proj, key)
+        named = set(definitions(_ctx0, _ctx0.prim("")))
+    except AnalysisError:
+        named = set()
+    for nm in sorted(named - set(reg) - {"kinetic-energy", "kinetic_energy", "velocitymag", "velocity_x", "velocity_y", "q"}):
+        undecorated = [g for g in proj.mro(cls) for g in [g.methods.get(nm)] if g is not None]
+        how = ""
+        if undecorated:
+            decs = [unparse(d) for d in undecorated[0].node.decorator_list]
+            how = " (a method of that name exists, decorated with %s: `@registry.register` WITHOUT parentheses passes the method as the prefix argument and registers nothing)" % ", ".join("@" + d for d in decs) if decs else " (a method of that name exists but is not decorated)"
+        check.violation("VAR-REG", "%s._vardict" % cls.qualname, "the variable %r of the statement is not registered for this model%s: phydata(%r) raises KeyError and list_var() does not list it" % (nm, how, nm), cls.loc(), key="unregistered-" + nm)
     for name, f in sorted(reg.items()):
         n += 1
         ctx = Ctx(proj, key)
@@ -128,6 +141,10 @@ def variables(check, key):
             check.undecided("VAR-DEF", construct, "analysis error: %s" % e, f.loc())
             continue
         want = defs[name]
+        from ..interp import Row2D
+        if isinstance(val, Row2D):
+            check.violation("VAR-RANK", construct, "returns a piece of the vector field that KEPT its component axis (%s gives two arrays of shape (1, ncell), not (ncell,)): the values are right and broadcast silently, but it is not one value per cell -- len() is 1, [i] is a row, and the array stacks / compares wrongly with the scalar fields" % val.how, f.loc(), key="rank-kept-axis")
+            continue
         # rank
         is_vec = isinstance(val, Vec)
         want_vec = isinstance(want, Vec)
